@@ -149,7 +149,7 @@ def sched3(prog: int, rv: int, p0: int, a0: int, t0: str, p1: int, a1: int, t1: 
 
 
 def sched4(prog: int, rv: int, p0: int, a0: int, p1: int, a1: int, p2: int, a2: int, p3: int, a3: int):
-    assume(0 <= p0 <= p1 <= p2 <= p3 <= NPOS)
+    assume(0 <= p0 <= p1 <= p2 <= p3 <= 7)
     _harness(PROGS[pick(prog, len(PROGS))], [(p0, pick(a0, NACT), 'm'), (p1, pick(a1, NACT), 'm'), (p2, pick(a2, NACT), 'm'),
                                              (p3, pick(a3, NACT), 'm')], rv)
 
